@@ -51,10 +51,11 @@ const (
 	ctxGatedRun
 	ctxRelayUser
 	ctxMiddleDeep
+	ctxMiddleVia // victim -> innocent intermediate realm -> attacker hook
 	ctxNum
 )
 
-var c08CtxNames = []string{"direct", "victim-calls-hook", "closure-in-victim", "iface-in-victim", "inner-stale-outer", "msgrun", "gated-via-realm", "gated-via-run", "relay-double-spend", "realm-victim-hook"}
+var c08CtxNames = []string{"direct", "victim-calls-hook", "closure-in-victim", "iface-in-victim", "inner-stale-outer", "msgrun", "gated-via-realm", "gated-via-run", "relay-double-spend", "realm-victim-hook", "victim-mid-hook"}
 
 // c08DrawStmt draws one statement. Besides the fully random family, three
 // families aim at attacks that are coherent enough to get past all but one
@@ -67,7 +68,21 @@ func c08DrawStmt(rt *rapid.T) c08Stmt {
 	s.To = rapid.SampledFrom([]int{aAttUser, aAttUser, aA1, aHook, aCurAddr, aVicUser}).Draw(rt, "to")
 	s.Twice = rapid.IntRange(0, 3).Draw(rt, "twice") == 0
 	victims := []int{aVicUser, aVault, aVicUser, aAdmin, aVault, aVaultDep, aA1Dep, aFeeColl, aRelay, aPayout, aMint, aStorFeeColl, aRelayDep}
-	switch rapid.SampledFrom([]string{"random", "via-previous", "foreign-from", "foreign-denom", "via-previous", "random", "foreign-from", "foreign-denom"}).Draw(rt, "family") {
+	switch rapid.SampledFrom([]string{"forged-cur", "via-previous", "random", "forged-cur", "foreign-from", "foreign-denom", "forged-cur", "via-previous", "random", "forged-cur", "foreign-from", "foreign-denom"}).Draw(rt, "family") {
+	case "forged-cur":
+		// a realm value other than the function's own cur is made the argument of a
+		// cur-call; the callee then uses every API that authorises by `cur`
+		s.Forge = rapid.IntRange(1, fgNum-1).Draw(rt, "route")
+		s.RX = rapid.SampledFrom([]int{1, 1, 2, 1, 3, 5, 0, 4}).Draw(rt, "rx")
+		s.Inner = rapid.SampledFrom([]int{0, 0, 0, 1, 2, 0}).Draw(rt, "inner")
+		s.BT = rapid.SampledFrom([]int{2, 2, 3, 1, 3, 2, 0, 4}).Draw(rt, "bt")
+		s.Op = rapid.SampledFrom([]int{0, 0, 1, 2, 0}).Draw(rt, "op")
+		s.From = rapid.SampledFrom([]int{aRXAddr, aRXAddr, aVicUser, aRXAddr, aAdmin, aVault, aRXAddr}).Draw(rt, "from")
+		s.Den = rapid.SampledFrom([]int{0, 0, 9, 11, 1, 0, 2}).Draw(rt, "den")
+		if s.Op != 0 {
+			s.Den = rapid.SampledFrom([]int{9, 11, 1, 9, 2, 0}).Draw(rt, "den")
+		}
+		s.Amt = rapid.SampledFrom([]int64{1000, 0, 250_000, 1}).Draw(rt, "amt")
 	case "via-previous":
 		s.RX = rapid.SampledFrom([]int{1, 1, 3, 1, 2, 5}).Draw(rt, "rx")
 		s.BT = rapid.SampledFrom([]int{2, 2, 3, 1}).Draw(rt, "bt")
@@ -129,10 +144,18 @@ func c08DrawTx(rt *rapid.T) c08Tx {
 		}
 		return c08Tx{Kind: "shrink", Signer: rapid.IntRange(0, 2).Draw(rt, "signer"), N: rapid.IntRange(1, 30).Draw(rt, "n")}
 	default:
-		tx := c08Tx{Kind: "attack", Ctx: rapid.SampledFrom([]int{ctxMiddle, ctxDirect, ctxMiddleDeep, ctxClosure, ctxIface, ctxInner, ctxRun, ctxGated, ctxGatedRun, ctxRelayUser, ctxMiddle, ctxDirect}).Draw(rt, "ctx")}
-		tx.Signer = rapid.SampledFrom([]int{0, 1, 0, 0, 1}).Draw(rt, "signer")
+		tx := c08Tx{Kind: "attack", Ctx: rapid.SampledFrom([]int{ctxMiddle, ctxDirect, ctxMiddleDeep, ctxClosure, ctxMiddleVia, ctxIface, ctxInner, ctxRun, ctxGated, ctxGatedRun, ctxRelayUser, ctxMiddle, ctxDirect, ctxMiddleVia}).Draw(rt, "ctx")}
+		tx.Signer = rapid.SampledFrom([]int{0, 1, 0, 2, 0, 1}).Draw(rt, "signer")
 		tx.Send = rapid.SampledFrom([]int64{0, 0, 1000, 300_000}).Draw(rt, "send")
 		tx.Stmt = c08DrawStmt(rt)
+		if tx.Stmt.Forge != 0 {
+			// the forged value should be somebody else's: a victim realm that calls the
+			// attacker (directly or through an innocent realm) or an EOA that calls it
+			tx.Ctx = rapid.SampledFrom([]int{ctxMiddle, ctxDirect, ctxMiddleVia, ctxMiddleDeep, ctxDirect, ctxMiddle, ctxClosure, ctxInner, ctxIface, ctxRun}).Draw(rt, "fctx")
+			if tx.Ctx == ctxDirect {
+				tx.Signer = rapid.SampledFrom([]int{1, 2, 1, 0}).Draw(rt, "fsigner")
+			}
+		}
 		tx.Addr = rapid.SampledFrom([]int{aAttUser, aA1, aHook}).Draw(rt, "to")
 		tx.Amt = rapid.SampledFrom([]int64{1, 1000, 300_000, 2_000_000}).Draw(rt, "amt")
 		tx.N = rapid.IntRange(1, 3).Draw(rt, "times")
@@ -184,7 +207,7 @@ func (w *c08World) render(c c08Case) c08Program {
 		switch tx.Ctx % ctxNum {
 		case ctxDirect:
 			fmt.Fprintf(&a1, "func Go%d(cur realm) {\n%s}\n\n", i, ra1.stmt(tx.Stmt, c08PathA1, false, true, "\t"))
-		case ctxMiddle, ctxMiddleDeep:
+		case ctxMiddle, ctxMiddleDeep, ctxMiddleVia:
 			fmt.Fprintf(&hookCases, "\tcase %d:\n%s", i, rhook.stmt(tx.Stmt, c08PathHook, false, false, "\t\t"))
 			if tx.Ctx%ctxNum == ctxMiddleDeep {
 				ra1.imports[c08PathVault] = true
@@ -202,7 +225,7 @@ func (w *c08World) render(c c08Case) c08Program {
 			rr := &c08Render{w: w, imports: map[string]bool{"chain": true, "chain/banker": true}}
 			self := "gno.land/e/" + w.signer(tx.Signer).Addr.String() + "/run"
 			body := rr.stmt(tx.Stmt, self, false, true, "\t")
-			p.scripts[i] = "package main\n\n" + renderImports(rr.imports) + c08Helpers + "\nfunc main(cur realm) {\n" + body + "}\n"
+			p.scripts[i] = "package main\n\n" + renderImports(rr.imports) + c08Helpers + "\n" + rr.decls.String() + "func main(cur realm) {\n" + body + "}\n"
 		case ctxGated:
 			fmt.Fprintf(&a1, "func Go%d(cur realm) {\n%s}\n\n", i, gated(ra1, tx))
 		case ctxGatedRun:
@@ -216,7 +239,7 @@ func (w *c08World) render(c c08Case) c08Program {
 	p.hook = "package hook\n\n" + renderImports(rhook.imports) + c08Helpers + `
 var Hits int
 
-func Hook(cur realm, n int) {
+` + rhook.decls.String() + `func Hook(cur realm, n int) {
 	Hits++
 	switch n {
 ` + hookCases.String() + `	}
@@ -235,7 +258,7 @@ func Use(cur realm, b banker.Banker, op int, from, to address, den string, amt i
 	}
 }
 `
-	p.a1 = "package a1\n\n" + renderImports(ra1.imports) + c08Helpers + "\nvar Hits int\n\nfunc Touch(cur realm) { Hits++ }\n\n" + a1.String()
+	p.a1 = "package a1\n\n" + renderImports(ra1.imports) + c08Helpers + "\nvar Hits int\n\nfunc Touch(cur realm) { Hits++ }\n\n" + ra1.decls.String() + a1.String()
 	return p
 }
 
@@ -290,6 +313,8 @@ func (w *c08World) msg(i int, tx c08Tx, p c08Program) (m std.Msg, declared map[s
 	switch tx.Ctx % ctxNum {
 	case ctxMiddle:
 		return ec.Call(k.Addr, c08PathVault, "Poke", []string{fmt.Sprint(i)}, ugnot(tx.Send)), declared
+	case ctxMiddleVia:
+		return ec.Call(k.Addr, c08PathVault, "PokeVia", []string{fmt.Sprint(i)}, ugnot(tx.Send)), declared
 	case ctxRun, ctxGatedRun:
 		return vm.NewMsgRun(k.Addr, ugnot(tx.Send), []*std.MemFile{{Name: "main.gno", Body: p.scripts[i]}}), declared
 	case ctxRelayUser:
@@ -381,11 +406,12 @@ func c08Exec(ctx *vk.Ctx, c c08Case) error {
 		return nil
 	}
 	steps := []func() error{
-		func() error { return dep(w.att, c08PathHook, prog.hook) },
-		func() error { return dep(w.admin, c08PathVault, w.srcVault()) },
 		func() error { return dep(w.admin, c08PathRelay, w.srcRelay()) },
 		func() error { return dep(w.admin, c08PathPayout, w.srcPayout()) },
 		func() error { return dep(w.admin, c08PathMint, w.srcMint()) },
+		func() error { return dep(w.att, c08PathHook, prog.hook) },
+		func() error { return dep(w.admin, c08PathMid, w.srcMid()) },
+		func() error { return dep(w.admin, c08PathVault, w.srcVault()) },
 		func() error { return dep(w.att, c08PathA1, prog.a1) },
 		func() error {
 			return must("fund vault", w.vic, ec.Call(w.vic.Addr, c08PathVault, "Deposit", nil, ugnot(5_000_000)))
@@ -395,6 +421,9 @@ func c08Exec(ctx *vk.Ctx, c c08Case) error {
 		},
 		func() error {
 			return must("fund payout", w.admin, bank.MsgSend{FromAddress: w.admin.Addr, ToAddress: w.addr[aPayout], Amount: ugnot(3_000_000)})
+		},
+		func() error {
+			return must("fund mid", w.admin, bank.MsgSend{FromAddress: w.admin.Addr, ToAddress: w.addr[aMid], Amount: ugnot(3_000_000)})
 		},
 		func() error {
 			return must("fund a1", w.att, bank.MsgSend{FromAddress: w.att.Addr, ToAddress: w.addr[aA1], Amount: ugnot(2_000_000)})
@@ -449,7 +478,7 @@ func c08Exec(ctx *vk.Ctx, c c08Case) error {
 			ctx.Class("ctx=" + c08CtxNames[tx.Ctx%ctxNum])
 			selfIdx := aA1
 			switch tx.Ctx % ctxNum {
-			case ctxMiddle, ctxMiddleDeep:
+			case ctxMiddle, ctxMiddleDeep, ctxMiddleVia:
 				selfIdx = aHook
 			case ctxRun:
 				selfIdx = []int{aAttUser, aVicUser, aAdmin}[tx.Signer%3]
@@ -482,7 +511,20 @@ func c08Exec(ctx *vk.Ctx, c c08Case) error {
 			}
 			return fmt.Errorf("harness: tx %d rejected by the ante handler: %v", i, r.Error)
 		}
+		if tx.Kind == "attack" && tx.Stmt.Forge%fgNum != fgNone {
+			ctx.Class(fmt.Sprintf("forge route=%s outcome=%s", c08ForgeNames[tx.Stmt.Forge%fgNum], outcome))
+			ctx.Class(fmt.Sprintf("forge value=%s inner=%d", c08RXNames[tx.Stmt.RX%len(c08RXNames)], tx.Stmt.Inner%3))
+		}
 		if err := w.judge(i, tx, k, ok, declared, before, after); err != nil {
+			// Known finding, matched narrowly: the violating tx is an attack whose foreign realm
+			// value reached a cur-call through a rebound `cur` parameter slot. Any other
+			// violation (no rebinding, rebinding without a cur-call, another tx kind) still alarms.
+			if tx.Kind == "attack" && c08RebindsCurSlot(tx.Stmt.Forge) && tx.Stmt.RX%len(c08RXNames) != 0 && ctx.Known(c08KnownForged) {
+				ctx.Class("known:forged-cur route=" + c08ForgeNames[tx.Stmt.Forge%fgNum])
+				ctx.Class("known:forged-cur ctx=" + c08CtxNames[tx.Ctx%ctxNum])
+				before = after // resynchronise: the oracle works on per-transaction deltas
+				continue
+			}
 			src := ""
 			if tx.Kind == "attack" {
 				src = "\n--- a1 ---\n" + prog.a1 + "\n--- hook ---\n" + prog.hook + "\n--- script ---\n" + prog.scripts[i]
